@@ -157,7 +157,7 @@ def run(ctx):
             ctx.cov["result_code_hist"][str(q["code"])] = ctx.cov["result_code_hist"].get(str(q["code"]), 0) + 1
     ctx.cov["store_size_hist"] = hist([len(r["ops"]) for r in rows], [1, 10, 20, 40, 80])
     ctx.cov["gap_len_hist"] = hist([len(q.get("resp", q.get("ids", []))) for r in rows for q in r["q"] if q["t"] == "gap"], [0, 1, 10, 100, 1000, 20000])
-    ctx.samples = [{"harness": r["h"], "theme": r["theme"], "nvaas": len(r["ops"]), "query": {k: v for k, v in r["q"][j].items() if k not in ("b", "ents") and v not in ("", None)}}
+    ctx.samples = [{"harness": r["h"], "theme": r["theme"], "nvaas": len(r["ops"]), "query": {k: (v[:12] if isinstance(v, list) else v) for k, v in r["q"][j].items() if k not in ("b", "ents") and v not in ("", None)}}
                    for r in rows[:4] for j in (0, len(r["q"]) // 2) if r["q"]]
     # monitors evaluated by the harness on the implementation (reference = the statement on what was stored)
     seen = {}
@@ -185,13 +185,21 @@ def run(ctx):
         m = core.parse_print(o, "M")
         qs = core.zlist(m) if (ok and m is not None) else []
         qi = qs[0] - 1 if qs and qs[0] > 0 else None
-        what = "store history not reproduced" if qs[:1] == [0] else "query %s" % ({k: v for k, v in r["q"][qi].items() if k not in ("b", "ents", "resp")} if qi is not None else "?")
+        unrep = dict(r.get("_unrep", []))
+        if qs[:1] == [0]:
+            what = "store history not reproduced (a StoreSignedVAA outcome or the stored bytes differ)"
+        elif qi is not None:
+            what = "query %s" % {k: v for k, v in r["q"][qi].items() if k not in ("b", "ents", "resp", "ids")}
+            if qi in unrep:
+                what += " — " + unrep[qi]
+        else:
+            what = "?"
         ctx.problem("correspondence", "model (Db.v) differs from the implementation", "%s harness, store %d (%s): %s; %d differing answers" % (r["h"], r["idx"], r["theme"], what, len(qs)),
                     concrete=False, replay=replay_of(r, qi))
     ctx.cov["traces_validated_against_impl"] = len(rows)
     ctx.cov["answers_validated_against_impl"] = nq
     ctx.cov["mismatches"] = len(bad)
-    ctx.assumptions = ["badger's iterator returns the live keys with the given prefix in bytewise order and Get/Set behave as a map (engine contract; exercised on a real badger store by the harness, not proved)",
-                       "requests with chain numbers >= 2^16 are outside the property (the uint16 conversion wraps; modelled as mod 65536 and compared with the implementation)",
-                       "a stream whose largest sequence is 2^64-1 is excluded (the Go loop `i <= lastSeq` cannot terminate; theorem hypothesis), such stores are only queried by lookups and batches",
-                       "stored values are decodable signed VAAs (theorem hypothesis): an undecodable value inside the scanned stream makes the gap scan fail (compared with the model only)"]
+    ctx.assumptions = ["badger's iterator returns the live keys in bytewise order, Seek/ValidForPrefix/Next and Get/Set behave as on an ordered map (engine contract: the model's store; exercised on real badger stores by the harness, not proved)",
+                       "identifiers are the Go types' values: chain ids < 2^16, 32-byte address, sequence < 2^64; RPC requests with chain numbers >= 2^16 are outside the property (the uint16 conversion wraps; modelled as mod 65536 and compared with the implementation)",
+                       "a stream containing sequence 2^64-1 is excluded from the gap theorem (the Go loop `i <= lastSeq` cannot terminate; proved to be exactly that case: C12_gap_loop_excluded_input); such stores are only queried by lookups and batches",
+                       "stored values are Marshal outputs of representable signed VAAs (theorem hypothesis `Forall wf vs`): an undecodable value (empty payload, other version) inside the scanned stream makes the gap scan fail (compared with the model only)"]
